@@ -21,7 +21,7 @@ def run(rep, tier, seed, replay):
     rc = None
     if replay:
         rc = [json.load(open(replay))["case"]["line"]]
-    res = differential(rep, PROP, "c13", seed, 1500 if quick else 60000, tier, replay_cases=rc, model_modes=["c13", "c13plain"])
+    res = differential(rep, PROP, "c13", seed, 1500 if quick else 30000, tier, replay_cases=rc, model_modes=["c13", "c13plain"])
     cases, impl, model, plain = res["cases"], res["impl"], res["models"]["c13"], res["models"]["c13plain"]
     mm = vlib.diff_lines(impl, model)
     add_corr(rep, "replies and final store bytes: implementation vs model (fed the real snappy output)", res, mm, len(set(cases)))
